@@ -547,14 +547,46 @@ def run(ctx: Ctx, rs: RuleSet, tier: str):
 
   fac, leaf = rv(True, None, None), rv(False, False, None)
   same, changed = rv(False, True, True), rv(False, True, False)
+  # the identity test written as a loop with an early exit:
+  #   for old, new in zip(<old children>, <new children>):
+  #     if old is not new: return <rebuilt>
+  #   return node
+  loop_form = False
+  for blk_owner in [visit.node] + list(walk_function(visit.node)):
+    for fld in ('body', 'orelse'):
+      blk = getattr(blk_owner, fld, None)
+      if not isinstance(blk, list):
+        continue
+      for i_, L_ in enumerate(blk[:-1]):
+        nxt = blk[i_ + 1]
+        if not (isinstance(L_, ast.For) and not L_.orelse and isinstance(
+            L_.target, ast.Tuple) and len(L_.target.elts) == 2 and
+                len(L_.body) == 1 and isinstance(L_.body[0], ast.If) and
+                not L_.body[0].orelse and isinstance(nxt, ast.Return)):
+          continue
+        it_ = roles.deref(visit, L_.iter)
+        t_ = L_.body[0].test
+        tg_ = sorted(unparse(x) for x in L_.target.elts)
+        inner = L_.body[0].body
+        if isinstance(it_, ast.Call) and unparse(it_.func) == 'zip' and (
+            isinstance(t_, ast.Compare) and len(t_.ops) == 1 and isinstance(
+                t_.ops[0], ast.IsNot) and sorted(
+                    [unparse(t_.left), unparse(t_.comparators[0])]) == tg_ and
+            len(inner) == 1 and isinstance(inner[0], ast.Return) and
+            unparse(inner[0].value).endswith('.unflatten()') and
+            unparse(nxt.value) == node):
+          loop_form = True
+          zipped_node_itself.extend(a for a in it_.args if unparse(a) == node)
+          same, changed = [node], [unparse(inner[0].value)]
   texts = {'factory': fac, 'leaf': leaf, 'unchanged container': same,
            'changed container': changed}
   ok = (fac == [f'{node}.factory()'] and leaf == [node] and same == [node] and
         len(changed) == 1 and changed[0].endswith('.unflatten()'))
   rs.check(ok, rule, f'{visit.qualname}:returns', f'returns {texts}',
            ctx.loc(visit, visit.node))
-  has_test = any(identity_test(e) for e in walk_function(visit.node)
-                 if isinstance(e, ast.Call))
+  has_test = loop_form or any(identity_test(e)
+                              for e in walk_function(visit.node)
+                              if isinstance(e, ast.Call))
   rs.check(has_test and same == [node] and node not in changed and
            not zipped_node_itself, rule,
            f'{visit.qualname}:identity-test',
